@@ -142,23 +142,29 @@ def nonbasic(t):
     return t[0] != "b"
 
 
-def smpi_formula(t):
-    """(size, lb, ub) that the formulas of src/smpi/mpi/smpi_datatype.cpp (create_*) give for node t when its children have the MPI
-    values.  Only used to NAME the signature of a layout mismatch (known root causes), never as an oracle."""
+class Obs:
+    """size/lb/ub/extent of a child type as the implementation reports them"""
+
+    def __init__(self, size, lb, ub):
+        self.size, self.lb, self.ub, self.extent = size, lb, ub, ub - lb
+
+
+def smpi_formula(t, kids):
+    """(size, lb, ub) that the formulas of src/smpi/mpi/smpi_datatype.cpp (create_*) give for node t from the values `kids` that the
+    implementation reported for its children.  Only used to NAME the signature of a layout mismatch (known root causes), never as
+    an oracle."""
     k = t[0]
+    o = kids[0] if kids else None
     if k == "dup":
-        o = typemap(t[1])
         return o.size, o.lb, o.ub
     if k == "resized":
-        return typemap(t[3]).size, t[1], t[1] + t[2]
+        return o.size, t[1], t[1] + t[2]
     if k == "contiguous":
-        o = typemap(t[2])
         if nonbasic(t[2]):
-            return smpi_formula(["hvector", t[1], 1, o.extent, t[2]])
+            return smpi_formula(["hvector", t[1], 1, o.extent, t[2]], kids)
         return t[1] * o.size, 0, t[1] * o.size
     if k in ("vector", "hvector"):
         count, bl, stride, old = t[1:5]
-        o = typemap(old)
         lb = ub = 0
         if count > 0:
             lb = o.lb
@@ -172,7 +178,6 @@ def smpi_formula(t):
             bls, idx, old = [t[1]] * len(t[2]), t[2], t[3]
         else:
             bls, idx, old = t[1], t[2], t[3]
-        o = typemap(old)
         elem = k.startswith("indexed")
         f = o.extent if elem else 1
         n = len(bls)
@@ -194,7 +199,7 @@ def smpi_formula(t):
         return size * o.size, lb, ub
     if k == "struct":
         bls, idx, olds = t[1], t[2], t[3]
-        oms = [typemap(o) for o in olds]
+        oms = kids
         n = len(bls)
         lb = ub = 0
         if n > 0:
@@ -217,6 +222,25 @@ def smpi_formula(t):
     return None
 
 
+def expand_subarray(t):
+    """the tree that MPI_Type_create_subarray builds in SMPI (for the classification of transfer failures only)"""
+    sizes, subsizes, starts, order, old = t[1:6]
+    nd = len(sizes)
+    o = typemap(old)
+    if nd == 1:
+        return ["contiguous", subsizes[0], old]
+    dims = list(range(nd - 1, -1, -1)) if order == "C" else list(range(nd))
+    i0, i1 = dims[0], dims[1]
+    cur = ["vector", subsizes[i1], subsizes[i0], sizes[i0], old]
+    size = sizes[i0] * sizes[i1]
+    lb = starts[i0] + starts[i1] * sizes[i0]
+    for d in dims[2:]:
+        cur = ["hvector", subsizes[d], 1, size * o.extent, cur]
+        lb += size * starts[d]
+        size *= sizes[d]
+    return ["resized", 0, o.extent, ["hindexed", [1], [lb * o.extent], cur]]
+
+
 def legacy_stride_affected(t, reps):
     """True when `reps` consecutive elements of type t (or of a derived type nested in it) are laid out by a traversal that finds the
     next element 'right after the last block' (and the first block of the next element without its displacement) instead of at
@@ -225,6 +249,8 @@ def legacy_stride_affected(t, reps):
     k = t[0]
     if k == "b" or reps == 0:
         return False
+    if k == "subarray":
+        return legacy_stride_affected(expand_subarray(t), reps)
     tm = typemap(t)
     if k == "dup":
         return legacy_stride_affected(t[1], reps)
@@ -376,9 +402,14 @@ class C30(core.Prop):
             return oc
         # ---- layout of every node
         bad_names = set()
+        obs = {n: Obs(sz, 0, sz) for n, sz in BASIC.items()}
         for i, sub, name in nodes:
             tm = typemap(sub)
             olds = [o for o in (prog[i].get("olds") or [prog[i].get("old")]) if o]
+            olds_all = olds
+            rec0 = res.get(0, i)
+            if rec0 is not None and rec0.get("rc") == 0 and not rec0.get("null") and "size" in rec0:
+                obs[name] = Obs(rec0["size"], rec0["lb"], rec0["lb"] + rec0["extent"])
             if any(o in bad_names for o in olds):
                 bad_names.add(name)         # built on a type that is already wrong: not a new root cause
                 continue
@@ -405,7 +436,8 @@ class C30(core.Prop):
                 wrong = [f for f in exp if got[f] != exp[f]]
                 if wrong:
                     q = node_qualifier(sub, tm, got)
-                    leg = smpi_formula(sub)
+                    kid_obs = [obs.get(o) for o in olds_all]
+                    leg = smpi_formula(sub, kid_obs) if all(kid_obs) else None
                     if sub[0] == "subarray" and got["size"] == tm.size:
                         sig = "layout:subarray-bounds"          # MPI_Type_create_subarray never gives the extent of the full array
                     elif leg is not None and q and (got["size"], got["lb"], got["lb"] + got["extent"]) == leg:
